@@ -102,7 +102,7 @@ def run(ck):
     if not quick:
         # four jobs, one slot, non-blocking: cancels of jobs in the middle of the queue (FIFO among the survivors)
         ck.mc("Throttle", "Throttle.mc3.cfg", timeout=3000)
-    for cfg in ("Throttle.dyn.cfg", "Throttle.dyn2.cfg", "Throttle.dyn3.cfg"):      # count callable: 1->2, 2->raises, 1->None
+    for cfg in ("Throttle.dyn.cfg", "Throttle.dyn2.cfg", "Throttle.dyn3.cfg", "Throttle.dyn4.cfg"):   # ... None->1      # count callable: 1->2, 2->raises, 1->None
         ck.mc("Throttle", cfg, timeout=3000)
     # 2. spec -> code replay
     for cfg, cnt, blk, n in (("Throttle.sim.cfg", 1, True, 40 if quick else 400),
